@@ -238,7 +238,8 @@ def run(index, rep, tier):
         v = get_kwarg(tops[0], "is_internal_node")
         rep.check(v is None or is_none(v), "R02.7", ts.qualname, "seed parsed with is_internal_node=%s" % (norm(v) if v is not None else "<default>"), fn_where(ts, tops[0]), "the seed node is parsed with is_internal_node=None",
                   "_parse_tree_statement starts the descent with is_internal_node=%s: for a tree that consists of a single node (`a:3;`) the label is then taken for an internal node label, the node gets no taxon and the namespace comes back empty" % (norm(v) if v is not None else None))
-        res = [i for i in nd.node.body if isinstance(i, ast.If) and names_in(i.test) == {"is_internal_node"} and "None" in norm(i.test)]
+        res = [i for i in nd.node.body if isinstance(i, ast.If) and "is_internal_node" in names_in(i.test) and "None" in norm(i.test)
+               and any(isinstance(a, ast.Assign) and norm(a.targets[0]) == "is_internal_node" for a in ast.walk(i))]
         if len(res) != 1:
             raise AnalysisError("R02.7: resolution of is_internal_node=None not recognised")
         out = {}
